@@ -29,6 +29,7 @@ TARGET_POOL = ['T', 'Tx', 'T_', 'U', 'u', 'T2']
 RUN_POOL = [0, 1, 2, 3, 7, 10, 11, 12]
 VER_POOL = [(1, 0, 0), (1, 1, 0), (1, 2, 0), (1, 10, 0), (2, 0, 0), (2, 0, 1)]
 CONTENT_POOL = [{'k': [1, 2, 3]}, 'text', 0, [1.5, ('t', b'bytes')], {'a': {'b': None}, 'c': [True]}, None]
+BIG_PREFIX = bytes(range(256)) * 4800  # 1 228 800 bytes: more than 1 MiB before the two large values start to differ
 NAME_POOL = {'targets': TARGET_POOL + ['zz'], 'tasks': aegen.PKG_NAMES[:5] + ['zz'], 'algs': aegen.ALG_NAMES[:5] + ['zz'],
              'svs': aegen.SV_NAMES + ['zz']}
 
@@ -99,7 +100,7 @@ DEFAULT_CFG = dict(
     mix_between=dict(remove=2, consume=1, reset=1, bump=3, reopen=1, purge=0, crash=0, trace=1, search=1, check=1),
     mix_actor=dict(add=1, record=1, next=1, versions=1, trace=1, search=1, facet=1, fesearch=1, check=2),
     kill=(0, 1), reset_conn=(0, 1), crash_mid=(0, 1), real_hash=(1, 50), stop_on=None, nonfatal=(),
-    enum=0, exdev=False, enospc=(0, 1), msv=(1, 6), max_images=160, mix_enum=dict(update=1), enum_clients=2, enum_ops=2, real_kill=(0, 1), calibrate=0,
+    enum=0, exdev=False, enospc=(0, 1), msv=(1, 6), max_images=160, mix_enum=dict(update=1), enum_clients=2, enum_ops=2, real_kill=(0, 1), calibrate=0, big=(1, 10),
 )
 
 
@@ -130,6 +131,9 @@ class StoreWorld:
         self.imager = None
         self.wind_up = False
         self.exclusion_suspect = False
+        self.big_left = 0
+        self.big_keys = []
+        self.big_loaded = False
 
     # -- reporting ---------------------------------------------------------
     def violate(self, prop, rule, sig, msg, fatal=True):
@@ -182,6 +186,9 @@ class StoreWorld:
         if ch.flip('cfg.real_hash', *cfg['real_hash']):
             env.HASH['real'] = True
             self.probes['real_md5sum_sha1sum_run'] += 1
+        if not (cfg['enum'] or cfg['calibrate']) and ch.flip('cfg.big', *cfg['big']):
+            self.big_left = 2
+            self.probes['run_with_large_value_pair'] += 1
         self.tpool = TARGET_POOL[:max(2, cfg['ntargets'] + 1)]
         self.op(f'engine: {self.spec.brief()}')
         dawgie.db.open()
@@ -363,6 +370,21 @@ class StoreWorld:
                         op['contents'][(s, v)] = c
                         op['labels'][f'{s}.{v}'] = lab
                 op['msv'] = ch.flip('op.msv', *cfg['msv'])
+                if self.big_left > 0 and self.imager is None:
+                    # one run in ten stores a pair of LARGE values (> 1 MiB serialised) that agree on their first
+                    # 1.2 MB and differ only at the very end, under different identities / targets / runs, and
+                    # loads both later: content addressing must hash all of the bytes
+                    here = (op['alg'], op['target'], op['run'])
+                    if here in [k[:3] for k in self.big_keys]:
+                        op['run'] = [r for r in RUN_POOL if (op['alg'], op['target'], r) not in [k[:3] for k in self.big_keys]][0]
+                    s0, _v0, vals0 = a.svs[0]
+                    tail = b'first' if self.big_left == 2 else b'other'
+                    op['contents'][(s0, vals0[0][0])] = BIG_PREFIX + tail
+                    op['labels'][f'{s0}.{vals0[0][0]}'] = f'BIG-{tail.decode()}'
+                    op['msv'] = False
+                    self.big_left -= 1
+                    self.big_keys.append((op['alg'], op['target'], op['run'], self.phase_no))
+                    self.probes['large_value_stored'] += 1
         elif kind == 'cadd':
             op['target'] = self.draw_target()
         return op
@@ -610,14 +632,14 @@ class StoreWorld:
                 else:
                     seal = getattr(got, '_version_seal_', None)
                     content = getattr(got, 'content', '<no content attribute>')
-                    desc = f'content={content!r} seal={None if seal is None else sm.vstr(seal)}'
+                    desc = f'content={sm.brief(content)} seal={None if seal is None else sm.vstr(seal)}'
                     ok = any(o is not sm.UNTOUCHED and type(got) is aegen.GenValue and seal is not None
                              and tuple(seal) == ident[6] and sm.canon(content) == sm.canon(o[0]) for o in outcomes)
                 self.probes['load_nothing_matches' if outcomes == [sm.UNTOUCHED] else 'load_found_entry'] += 1
                 if len(outcomes) > 1:
                     self.probes['load_with_uncertain_entry'] += 1
                 if not ok:
-                    want = ['untouched' if o is sm.UNTOUCHED else f'content={o[0]!r}' for o in outcomes]
+                    want = ['untouched' if o is sm.UNTOUCHED else f'content={sm.brief(o[0])}' for o in outcomes]
                     sig = self.classify_load(ident, target, op['run'], got, pristine[key])
                     self.violate('C06', 'load_mismatch', sig,
                                  f'{how} load of {ident[0]}.{ident[1]}@{sm.vstr(ident[2])}.{ident[3]}@{sm.vstr(ident[4])}.'
@@ -686,6 +708,11 @@ class StoreWorld:
                 for lst in ops:
                     for o in lst:
                         o['msv'] = False
+            if len(self.big_keys) == 2 and not self.big_loaded and all(k[3] < self.phase_no for k in self.big_keys) and self.imager is None:
+                # both large values were stored in earlier phases: load both
+                self.big_loaded = True
+                ops.append([dict(kind='load', alg=k[0], target=k[1], run=k[2]) for k in self.big_keys])
+                self.probes['large_values_loaded_back'] += 1
         for i, lst in enumerate(ops):
             self.clients.append(Client(self, i, f'c{self.phase_no}.{i}', lst))
         self.exclusion_suspect = False
@@ -822,6 +849,12 @@ class StoreWorld:
                 from worlds import store_crash
 
                 store_crash.enumerate_updates(self)
+            if len(self.big_keys) == 2 and not self.big_loaded:
+                # the pair of large values was completed in the last phase: one more phase loads both back
+                self.big_loaded = True
+                self.probes['large_values_loaded_back'] += 1
+                self.phase(ops=[[dict(kind='load', alg=k[0], target=k[1], run=k[2]) for k in self.big_keys]])
+                self.check_stop()
             self.final()
         except Stop:
             pass
